@@ -28,6 +28,14 @@ CASES = [
   "Rank128: rounding constant 64 -> 63 (wrong index entry for i = 64 mod 128)", "yes"),
  ("m8", "mutation", "bmtree/newpath.go", "return (searchingBits << 32) |", "return ((searchingBits & 0x7fffffff) << 32) |",
   "NewPath: searching bit 31 is dropped", "no: bit 31 of the searching bits needs height 32, outside the domain"),
+ ("m9", "mutation", "bmtree/partial_tree.go", "\t\trst += (a >> shift)\n", "\t\trst += (a >> shift) &^ (1 << 63)\n",
+  "shiftMulti (loop body): bit 63 of the shifted word is dropped", "no: needs shift = 0 and a negative bitmapSize"),
+ ("m10", "mutation", "bmtree/index.go", "\t\t\tindex--\n", "\t\t\tindex -= 1 + index>>30\n",
+  "IndexToPath (loop body): left descent subtracts 2 for an index >= 2^30", "hardly: only in trees of height 30"),
+ ("m11", "mutation", "bitmap/next.go", "\t\tfor ; i < end; i += 64 {\n", "\t\tfor ; i < end; i += 64 + (i>>30)<<6 {\n",
+  "NextOne (loop step): the stride doubles for positions >= 2^30", "no: needs a bitmap of more than 2^30 bits"),
+ ("r8", "rewrite", "bmtree/partial_tree.go", "\tfor b != 0 {\n", "\tfor {\n\t\tif b == 0 {\n\t\t\tbreak\n\t\t}\n",
+  "shiftMulti: loop condition moved into the body as if/break", "-"),
  ("x1", "structural", "bmtree/pathlen.go", "\treturn int32(bits.OnesCount32(uint32(p)))\n", "\tn := int32(0)\n\tfor q := uint32(p); q != 0; q &= q - 1 {\n\t\tn++\n\t}\n\treturn n + int32(bits.OnesCount32(0))\n",
   "PathLen rewritten as a loop (same value): no longer translatable", "-"),
  ("x2", "structural", "bitmap/get.go", "func Get1(bm []uint64, i int32) uint64 {", "func Get1(bm []uint64, i int32) uint64 {\n\tvar undefinedType notAType\n",
